@@ -407,6 +407,9 @@ impl Prop for C20 {
         }
         (graph_strategy(&ALL_KINDS, 0, 7, me, &[0, 1], 3), any::<u64>(), prop::bool::weighted(0.3)).prop_map(|(g, sel, absent)| ApiCase { g, sel, absent }).boxed()
     }
+    fn case_timeout_s(&self) -> u64 {
+        60
+    }
     fn random_cases(&self, tier: Tier) -> u32 {
         tier.pick(30_000, 400_000)
     }
